@@ -562,7 +562,7 @@ def build_pptx(seed: int, feature: str | None = None, twin: bool = False):
             target = f"/ppt/media/{name}" if risky == "image-target-absolute" else f"../media/{name}"
             rels.append((rid, REL_T + "image", target, None))
             sid += 1
-            shapes.append(f'<p:pic><p:nvPicPr><p:cNvPr id="{sid}" name="Picture {sid}"/><p:cNvPicPr/><p:nvPr/></p:nvPicPr><p:blipFill><a:blip r:embed="{rid}"/><a:stretch><a:fillRect/></a:stretch></p:blipFill>'
+            shapes.append(f'<p:pic><p:nvPicPr><p:cNvPr id="{sid}" name="Picture {sid}" descr="{exp.ignore(tk.new("u"))} alt text"/><p:cNvPicPr/><p:nvPr/></p:nvPicPr><p:blipFill><a:blip r:embed="{rid}"/><a:stretch><a:fillRect/></a:stretch></p:blipFill>'
                           f'<p:spPr><a:xfrm><a:off x="100000" y="{y}"/><a:ext cx="{im["w"] * 9525}" cy="{im["h"] * 9525}"/></a:xfrm></p:spPr></p:pic>')
             y += 500000
             exp.images.append({"sha": im["sha"], "ctype": im["ctype"], "w": im["w"], "h": im["h"], "unit": s + 1})
